@@ -185,6 +185,17 @@ Theorem C04_offer_case_insensitive : forall ty sub ps ty' sub' ps',
 Proof. exact offer_case_insensitive. Qed.
 Print Assumptions C04_offer_case_insensitive.
 
+(* AcceptOffer instances (with fixes/C04-2-...): a pre-parsed offer whose components are tokens is treated exactly
+   as the media type text it stands for, str(offer) - hence lower-cased, wildcards refused, parameters compared
+   after lower-casing the names.  (Values restricted to HTAB / SP / VCHAR / obs-text: only those have a text form.) *)
+Theorem C04_accept_offer_as_text : forall ty st (ps : params),
+  is_token ty = true -> is_token st = true ->
+  forallb (fun p => is_token (fst p)) ps = true -> existsb (fun p => is_q_name (fst p)) ps = false ->
+  Forall (fun nv => qchar_ok (snd nv)) ps ->
+  parse_offer (OObj ty st ps) = parse_offer_str (form_media_range (ty ++ 47%N :: st) ps).
+Proof. exact accept_offer_as_text. Qed.
+Print Assumptions C04_accept_offer_as_text.
+
 (* the unquoting step of _parse_media_type_params is C03's unquote_value, which inverts webob's own quoting
    (C19_quote_inverse) for every string *)
 Theorem C04_unquote_param : forall nv, unquote_param nv = (fst nv, unquote_value (snd nv)).
